@@ -614,7 +614,8 @@ class Driver:
                 'pre': pre, 't': t}
         self.last_pack = info
         before = self.sim.fs.read_bytes(self.path) \
-            if self.kind == 'file' else None
+            if self.kind == 'file' and self.sim.fs.exists(self.path) \
+            else None
         try:
             if gc is None:
                 st.pack(t, referencesf)
